@@ -775,6 +775,7 @@ Theorem defaults_kept_plugin : forall F iface fk cur kvs r e nl fs d,
   plugin_entry reg iface kvs = Some e -> e_conf e = Some (SStruct nl fs, d) -> entry_lazy lz fk e = false ->
   exists name rs, r = CPlugin name false (CStruct rs) /\
     validate orc (CStruct rs) (SStruct nl fs) = true /\
+    ctor_ok (SStruct nl fs) (CStruct rs) = true /\
     forall i f, nth_error (flat_fields (SStruct nl fs)) i = Some f ->
       unwritten F (f_key f) (filter (fun kv => negb (is_type_key kv)) kvs) ->
       nth_error rs i = Some (cur_at (struct_cur (SStruct nl fs) d) i f).
@@ -783,10 +784,11 @@ Proof.
   destruct (plugin_entry_inv _ _ _ _ Hp) as [k1 [name [H1 H2]]]. rewrite H1, H2, Hc in H.
   unfold entry_lazy in Hl. rewrite Hl in H.
   destruct (D F (SStruct nl fs) d (VMap (filter (fun kv => negb (is_type_key kv)) kvs))) as [c| |] eqn:E; try discriminate.
-  destruct (validate orc c (SStruct nl fs)) eqn:Hv; try discriminate. inversion H; subst.
+  destruct (validate orc c (SStruct nl fs)) eqn:Hv; try discriminate.
+  destruct (ctor_ok (SStruct nl fs) c) eqn:Hct; try discriminate. inversion H; subst.
   destruct F as [|F]; [cbn in E; discriminate|].
   destruct (defaults_kept_struct _ _ _ _ _ _ E) as [rs [-> Hk]].
-  exists name, rs. split; [reflexivity|]. split; [exact Hv|]. intros i f Hf [Hu|[k' Hu]]; apply Hk; auto.
+  exists name, rs. split; [reflexivity|]. split; [exact Hv|]. split; [exact Hct|]. intros i f Hf [Hu|[k' Hu]]; apply Hk; auto.
   - left. exact Hu.
   - right. eauto.
 Qed.
